@@ -248,7 +248,12 @@ pub fn spawn_decl(d: &ActorDecl) -> Spawned {
     }
 }
 
+/// `Default::default()` of a harness actor reads a process-global "default spec": spawns that go through Default
+/// are serialised so that concurrent client threads (L2) cannot swap it under each other
+static DEFAULT_SPAWN: std::sync::Mutex<()> = std::sync::Mutex::new(());
+
 fn spawn_k<const KK: usize>(d: &ActorDecl) -> Spawned {
+    let _serial = DEFAULT_SPAWN.lock().unwrap_or_else(|e| e.into_inner());
     let spec = spec_of(d);
     register_spec(Arc::clone(&spec));
     if d.strategy == Strategy::Recreate
